@@ -1443,6 +1443,13 @@ _CATALOGUE = [
     <field name="v" type="char"/>
     <chunked><field name="a" type="string" length="2"/><chunked><field name="b" type="char"/></chunked><field name="c" type="string"/></chunked>
   </struct>
+  <struct name="CaseChunk">
+    <field name="k" type="char"/>
+    <switch field="k"><case value="1"><chunked><field name="s" type="string"/><break/><field name="u" type="char"/></chunked></case>
+      <case value="2"><field name="w" type="short"/></case></switch>
+    <field name="t" type="string" length="2"/>
+  </struct>
+  <struct name="Holder"><chunked><field name="c" type="CaseChunk"/><field name="z" type="string"/></chunked></struct>
   <struct name="Nest3">
     <chunked><field name="k" type="char"/>
       <switch field="k"><case value="1"><chunked><field name="p" type="char"/></chunked><field name="q" type="string" length="3"/></case></switch>
